@@ -3,6 +3,7 @@ package main
 import (
 	"fmt"
 	"go/ast"
+	"go/parser"
 	"go/types"
 	"sort"
 	"strings"
@@ -107,30 +108,21 @@ func verifyUnit(p *Program, u *Unit) (res *UnitResult) {
 	// axioms of the package
 	envA := &SpecEnv{run: r, st: st, old: r.entry, bound: map[string]Val{}}
 	for _, ax := range p.Axioms {
-		if ax.Lemma {
-			used := false
-			for _, n := range u.Uses {
-				if n == ax.Name {
-					used = true
-				}
+		used := false
+		for _, n := range u.Uses {
+			if n == ax.Name {
+				used = true
 			}
-			if used {
-				st.assume(r.specBool(envA, ax.C, "lemma "+ax.Name))
-			}
+		}
+		if !used {
 			continue
 		}
-		if ax.Short == u.Short || ax.Short == "global" {
+		if ax.Lemma {
+			st.assume(r.specBool(envA, ax.C, "lemma "+ax.Name))
+		} else {
 			st.assume(r.specBool(envA, ax.C, "axiom "+ax.Name))
 			r.assumption("axiom " + ax.Name + ": " + ax.C.Text)
 		}
-	}
-	env := &SpecEnv{run: r, st: st, old: r.entry, bound: map[string]Val{}}
-	for _, c := range u.Requires {
-		st.assume(r.specBool(env, c, "requires of "+u.Name))
-	}
-	for _, c := range u.Domain {
-		st.assume(r.specBool(env, c, "domain of "+u.Name))
-		r.assumption("property domain (assumed, not checked) in " + u.Name + ": " + c.Text)
 	}
 	if u.Implements != "" {
 		au, ok := p.Units[u.Implements]
@@ -145,6 +137,14 @@ func verifyUnit(p *Program, u *Unit) (res *UnitResult) {
 		for _, c := range au.Requires {
 			st.assume(r.specBool(envI, c, "call-state protocol of "+au.Name))
 		}
+	}
+	env := &SpecEnv{run: r, st: st, old: r.entry, bound: map[string]Val{}}
+	for _, c := range u.Requires {
+		st.assume(r.specBool(env, c, "requires of "+u.Name))
+	}
+	for _, c := range u.Domain {
+		st.assume(r.specBool(env, c, "domain of "+u.Name))
+		r.assumption("property domain (assumed, not checked) in " + u.Name + ": " + c.Text)
 	}
 	for _, g := range u.Ghost {
 		if g.Kind == "assume" {
@@ -196,20 +196,63 @@ func (r *UnitRun) capturedAndOuterParams(u *Unit) []*types.Var {
 	return out
 }
 
-// bindEdgeGhost states srcOf(f) / tgtOf(f) for an escaping back-edge closure with function term f.
-func (r *UnitRun) bindEdgeGhost(st *State, u *Unit, f string) {
-	for _, x := range []struct{ fn, name string }{{"srcOf", u.Source}, {"tgtOf", u.Target}} {
-		if x.name == "" {
+// bindEdgeGhost states srcOf(f) / tgtOf(f) for an escaping back-edge closure with function term f. The source / target
+// clauses are spec expressions evaluated where the closure is created; inside the closure's own unit an expression that
+// cannot be evaluated (it mentions locals of the creating function) is an unconstrained ghost tensor. The ghost names
+// "src" and "tgt" are bound in both cases.
+func (r *UnitRun) bindEdgeGhost(st *State, u *Unit, f string) map[string]Val {
+	out := map[string]Val{}
+	defer func() {
+		if r.unit == u {
+			for k, v := range out {
+				st.ghost[k] = v
+			}
+		}
+	}()
+	for _, x := range []struct{ fn, expr, ghost string }{{"srcOf", u.Source, "src"}, {"tgtOf", u.Target, "tgt"}} {
+		if x.expr == "" {
 			continue
 		}
-		obj, ok := st.names[x.name]
-		if !ok {
-			panic(toolLimit("source/target " + x.name + " of " + u.Name + " is not in scope"))
-		}
-		v := st.vars[obj]
 		r.needDomain(x.fn)
-		st.assume(eq(sx(x.fn, f), v.T))
+		var term string
+		if x.expr == "nil" {
+			term = "nilT"
+		} else {
+			e, err := parser.ParseExpr(x.expr)
+			if err != nil {
+				panic(toolLimit("source/target of " + u.Name + ": " + err.Error()))
+			}
+			func() {
+				defer func() {
+					if rec := recover(); rec != nil {
+						if _, ok := rec.(specError); ok && r.unit == u {
+							term = r.fresh(x.ghost, "T")
+							return
+						}
+						panic(rec)
+					}
+				}()
+				env := &SpecEnv{run: r, st: st, old: r.entry, bound: map[string]Val{}}
+				v := env.eval(e)
+				if v.K != KRef || v.Sort != "T" {
+					specFail("source/target %q is not a tensor", x.expr)
+				}
+				term = v.T
+			}()
+		}
+		st.assume(eq(sx(x.fn, f), term))
+		out[x.ghost] = Val{K: KRef, T: term, Sort: "T", Go: r.tensorIfaceType()}
 	}
+	return out
+}
+
+func (r *UnitRun) tensorIfaceType() types.Type {
+	for _, p := range r.prog.Pkgs {
+		if shortName(p.PkgPath) == "itensor" {
+			return p.Types.Scope().Lookup("Tensor").Type()
+		}
+	}
+	return nil
 }
 
 // verifyLemma proves a lemma from the domain axioms alone.
